@@ -132,6 +132,23 @@ class Report:
             self.error(rid, "analyser crashed: %r\n%s" % (e, tb))
 
 
+def borrow(rep, rule_fn, ctx, old, new, *args, keep=None):
+    """Evaluate a rule function of another property and record its obligations under rule id
+    `new` (sibling properties share structural clauses; the obligations are re-evaluated on the
+    current tree, not copied from an evidence file).  `keep`: optional predicate on obligations."""
+    tmp = Report(rep.prop, rep.tier, rep.seed)
+    rule_fn(tmp, ctx, *args)
+    for o in tmp.obligations:
+        if keep is not None and not keep(o):
+            continue
+        o.rule = o.rule.replace(old, new)
+        rep.obligations.append(o)
+    for r, msg in tmp.errors:
+        rep.errors.append((r.replace(old, new), msg))
+    for k, v in tmp.analysed.items():
+        rep.analysed[k.replace(old, new)] = v
+
+
 def load_known():
     if not os.path.exists(KNOWN_FILE):
         return []
